@@ -194,7 +194,21 @@ def evaluate(case) -> Result:
         if "DWR-before" in noise:
             w.feed_msg(sender, {"k": "DWR", "host": case["sender_host"], "hbh": 0x3001, "e2e": 0x3001})
             n0 = len(sender.refresh())
+        pending_dwr = None
+        if "await-DWA" in noise:
+            # the node's own watchdog request is outstanding when the request arrives (READY_WAITING_DWA)
+            for _ in range(40):
+                w.advance(1)
+                dwrs = [f for f in sender.refresh()[n0:] if f.is_request and f.code == 280]
+                if dwrs:
+                    pending_dwr = dwrs[-1]
+                    break
+            if pending_dwr is not None and not sender.node_closed:
+                res.classes.append("sender:awaiting-dwa")
+            n0 = len(sender.refresh())
         w.feed(sender, req_bytes, case.get("cuts"))
+        if pending_dwr is not None:
+            w.feed_msg(sender, {"k": "DWA", "host": case["sender_host"], "hbh": pending_dwr.h["hbh"], "e2e": pending_dwr.h["e2e"]})
         if "DWR-after" in noise:
             w.feed_msg(sender, {"k": "DWR", "host": case["sender_host"], "hbh": 0x3002, "e2e": 0x3002})
         if "DWA-after" in noise:
@@ -333,6 +347,15 @@ def shard_main(shard, nshards, tier, scale):
                 record(rec, case, res)
             hyp.run_given(full_spec_strategy(k), obody, 1, derive_seed(PID, "ob", k.__name__, layout, sender), rec=rec)
 
+    for k in classes[shard::nshards]:
+        def wbody(spec, k=k):
+            case = {"cls": k.__name__, "spec": spec, "removed": [], "realm": "example", "app_id": LAYOUTS[0]["apps"][0][0],
+                    "sender_host": "peer1.example", "layout": 0, "noise": ["await-DWA"]}
+            res = evaluate(case)
+            res.classes.append("awaiting-dwa-grid")
+            record(rec, case, res)
+        hyp.run_given(full_spec_strategy(k), wbody, 1, derive_seed(PID, "wd", k.__name__), rec=rec)
+
     n = int((6000 if thorough else 400) * scale)
 
     @st.composite
@@ -348,7 +371,7 @@ def shard_main(shard, nshards, tier, scale):
                 "sender_host": draw(st.sampled_from(["peer1.example", "peer2.example"])),
                 "layout": layout, "handler": draw(st.sampled_from(["answer", "answer", "raise"])),
                 "app_kind": draw(st.sampled_from(["basic", "threading"])),
-                "noise": draw(st.lists(st.sampled_from(["DWR-before", "DWR-after", "DWA-after"]), max_size=2, unique=True)),
+                "noise": draw(st.lists(st.sampled_from(["DWR-before", "DWR-after", "DWA-after", "await-DWA"]), max_size=2, unique=True)),
                 "sender_dir": draw(st.sampled_from(["in", "in", "out"])),
                 "sender_spelling": draw(st.sampled_from([None, "UPPER", "Title"])),
                 "seed": draw(st.integers(0, 3))}
@@ -366,7 +389,7 @@ def run(tier, scale=1.0):
     rec = Recorder(PID)
     for d in hyp.pool_run(shard_main, (tier, scale)):
         rec.merge(d)
-    required = {"sender:outbound-respelled": 1, "layout:mixed-case-realm": 1, "expect:deliver": 1, "expect:5005": 1, "expect:3003": 1, "expect:3007": 1, "handler:raise": 1,
+    required = {"sender:awaiting-dwa": 1, "sender:outbound-respelled": 1, "layout:mixed-case-realm": 1, "expect:deliver": 1, "expect:5005": 1, "expect:3003": 1, "expect:3007": 1, "handler:raise": 1,
                 "layout:same-id-two-peers": 1, "layout:three-apps": 1, "app:threading": 1, "removed:2": 1}
     return finish(rec, tier=tier, level="exploration", rule=RULE, assumptions=ASSUME, t0=t0,
                   required_classes=required,
